@@ -14,7 +14,8 @@ TOneToOne == IsEvent("onetoone") /\ UNCHANGED <<pidvars, fvars>> /\ (OneToOneOK(
 TDuration == /\ IsEvent("duration") /\ UNCHANGED <<pidvars, fvars>>
              /\ Tr[l].fromMicro = FromMicro(Tr[l].us) /\ Tr[l].toMicro = ToMicro(Tr[l].ns)
 TRansac == IsEvent("ransac") /\ UNCHANGED <<pidvars, fvars>> /\ (RansacOK(Tr[l]) = TRUE)
-TraceNext == TRansac \/ TReset \/ TPid \/ TFilter \/ TFReset \/ TOneToOne \/ TDuration
+TNlse == IsEvent("nlse") /\ UNCHANGED <<pidvars, fvars>> /\ (NlseOK(Tr[l]) = TRUE)
+TraceNext == TNlse \/ TRansac \/ TReset \/ TPid \/ TFilter \/ TFReset \/ TOneToOne \/ TDuration
 TraceSpec == TraceInit /\ [][TraceNext]_tvars
 TraceAccepted == TLCGet("stats").diameter - 1 = Len(Tr)
 =============================================================================
